@@ -106,7 +106,7 @@ class Unit:
 
     def execute(self, cross=False):
         t0 = time.time()
-        res = dict(unit=self.name, file=self.relpath, function=self.qualname, props=self.props, status="ok",
+        res = dict(unit=self.name, file=self.relpath, function=self.qualname, props=self.props, status="ok", scenario=bool(getattr(self, "scenario", False)),
                    assumptions=self.assumptions, abstractions=self.abstractions, obligations=[], paths=0, aborted_paths=0,
                    callee_contracts=self.callee_contracts)
         try:
